@@ -20,6 +20,8 @@ type RTCase struct {
 	Cuts  []int         `json:"cuts,omitempty"`
 	// Digest: encode interestName fields with needDigest (an encoder input, not part of the value)
 	Digest bool `json:"dg,omitempty"`
+	// ReInit: the encoder object is initialised twice for the value before it encodes
+	ReInit bool `json:"reinit,omitempty"`
 }
 
 func genCuts(t *rapid.T) []int {
@@ -44,6 +46,7 @@ func genRT(st *modelreg.State) func(*rapid.T) RTCase {
 		if hasInterestName(st, st.ByKey(k)) {
 			c.Digest = rapid.Bool().Draw(t, "needDigest")
 		}
+		c.ReInit = rapid.IntRange(0, 3).Draw(t, "reinit") == 0
 		return c
 	}
 }
@@ -63,7 +66,7 @@ func execRT(st *modelreg.State) func(RTCase) evid.Result {
 			return res
 		}
 		// 1. encode; announced == produced
-		eo := modelreg.EncOpts{NeedDigest: c.Digest}
+		eo := modelreg.EncOpts{NeedDigest: c.Digest, ReInit: c.ReInit}
 		e, _, err := st.EncodeValue(m, v, eo)
 		if err != nil {
 			return fail("%v", err)
